@@ -5,13 +5,14 @@
 package drive
 
 import (
-	"go.etcd.io/bbolt"
 	"bufio"
 	"bytes"
 	"encoding/json"
 	"errors"
 	"fmt"
+	"go.etcd.io/bbolt"
 	"io"
+	"math"
 	"os"
 	"path/filepath"
 	"runtime/debug"
@@ -441,6 +442,8 @@ func (r *run) resolve(s Step) Step {
 	return s
 }
 
+const hugeIdx = 1<<30 + math.MaxUint64%1000 // how MaxUint64 is written in scenarios and traces (TLC integers are 32 bit)
+
 // doStep performs one scenario step and emits its observation event(s).
 func (r *run) doStep(s Step) {
 	if r.dead {
@@ -514,7 +517,15 @@ func (r *run) doStep(s Step) {
 				ev["msg"] = err.Error()
 			}
 		case "delete":
-			err := r.w.DeleteRange(s.Min, s.Max)
+			// spec/WalContract.tla's Huge stands for the largest index there is
+			mn, mx := s.Min, s.Max
+			if mn == hugeIdx {
+				mn = math.MaxUint64
+			}
+			if mx == hugeIdx {
+				mx = math.MaxUint64
+			}
+			err := r.w.DeleteRange(mn, mx)
 			ev = map[string]any{"ev": "delete", "min": s.Min, "max": s.Max, "res": errClass(err)}
 			if err != nil {
 				ev["msg"] = err.Error()
